@@ -135,6 +135,22 @@ func verifSchema(n int, withAuto, withMulti, withAfter bool) Schema {
 	return schema
 }
 
+// verifPre / verifCalled: symbolic pre-state and called set; the case parameters "emptypre" and
+// "single" narrow them (used by the larger schema families to keep the number of paths down).
+func verifPre(names S) S {
+	if vParam("emptypre", 0) == 1 {
+		return S{}
+	}
+	return verifSublist(names)
+}
+
+func verifCalled(names S) S {
+	if vParam("single", 0) == 1 {
+		return S{names[vInt(0, len(names)-1)]}
+	}
+	return verifSublist(names)
+}
+
 func verifHas(list S, s string) bool {
 	for _, x := range list {
 		if x == s {
